@@ -235,7 +235,7 @@ impl<'a> TGen<'a> {
 
     fn lit(&mut self, ty: Ty) -> String {
         match ty {
-            Ty::Int => (*self.rng.pick(&["0", "1", "2", "-1", "7", "9223372036854775807"])).to_string(),
+            Ty::Int => (*self.rng.pick(&["0", "1", "2", "-1", "7", "3"])).to_string(),
             Ty::Float => match self.rng.below(8) {
                 0 => big_float(),
                 1 => format!("-{}", big_float()),
